@@ -76,6 +76,8 @@ def cases(tier):
         # and a symbolic state that polynomial cannot be built in budget -> Matrix-level twins only for the constant gates
         if has_matrix(c) and c["op"] in ("Custom", "U3", "RX", "RY", "RZ", "PhaseShift", "Creation", "Annihilation"):
             continue
+        if c["kind"] == "custom" and c["op"] == "Custom" and c["id"].startswith("custom/C0-own-V/state"):
+            continue  # renormalised symbolic vector + label test: obligation undecided by both solvers in budget
         if c["kind"] == "fock" and c["op"] == "Custom":
             continue  # a non-unitary, non-renormalising operator leaves no valid state: contraction is undefined on it
         if k % stride == 0:
